@@ -564,7 +564,7 @@ func genNearSplit(rng *Rng, tier string) []poly {
 	var ps []poly
 	boxes := [][4]float64{{-2, 2, -2, 2}, {0, 200, 0, 200}, {-3, 5, 10, 18}, {0.1, 0.1 + math.Pi, -7, -7 + math.Pi}, {0, 5.767822265625, 0, 16},
 		{-1e-3, 2e-3, 0, 1e-3}, {1e5, 3e5, -2e5, 1e5}, {0, 1000, 0, 700}}
-	n := TierN(tier, 3, 24, 12)
+	n := TierN(tier, 3, 16, 12)
 	for j := 0; j < n; j++ {
 		b := boxes[rng.Intn(len(boxes))]
 		ps = append(ps, poly{name: fmt.Sprintf("nearsplit-star#%d", j), family: "nearsplit/star", v: nearSplitStar(rng, b[0], b[1], b[2], b[3], rng.Range(3, 30)), light: true})
